@@ -1343,6 +1343,19 @@ fn check(led: &Led, kn: &Knobs, total: usize, finished: bool, connect_faults: &[
     // order, from the first message on (id aside: same exchange), and without
     // a stream fault in the run it neither fails nor ends early.
     if kn.xfer_msgs > 0 {
+        // Whatever else goes wrong on the connection - duplicates, wrong ids,
+        // delays, closures -, the streaming request is never handed a message
+        // that answers one of the plain requests (unless the framing itself
+        // was destroyed: a lying length, a frame cut short, sub-header junk).
+        let framing_destroyed = l.faults.iter().any(|(_, _, w)| matches!(*w, "fault.s.len_lie" | "fault.s.cut_inside" | "fault.s.garbage"));
+        if !framing_destroyed {
+            for (i, m) in l.xfer_got.iter().enumerate() {
+                if let Some(k) = dns::parse(m).and_then(|p| k_of_qname(&p.qname)) {
+                    sim::violation(P, "attribution", "streaming-request-handed-an-answer-to-a-plain-request".to_string(), format!("message {} handed to the streaming request (a zone transfer) is an answer to plain request k={} on the same connection", i + 1, k));
+                    return;
+                }
+            }
+        }
         for (i, m) in l.xfer_got.iter().enumerate() {
             let same = l.xfer_sent.get(i).is_some_and(|s| s.len() == m.len() && s[2..] == m[2..]);
             if !same && l.stream_faults == 0 {
